@@ -53,6 +53,20 @@ pub fn untracked<T>(f: impl FnOnce() -> T) -> T {
 }
 
 impl World {
+    pub fn any_overlong_float(&self) -> bool {
+        (0..NP).any(|k| self.overlong_slot(Pool::F, k) || self.overlong_slot(Pool::D, k))
+    }
+    pub fn overlong_slot(&self, p: Pool, k: usize) -> bool {
+        fn ol<R: dashu_float::round::Round, const B: Word>(v: &FBig<R, B>) -> bool {
+            v.precision() != 0 && v.repr().is_finite() && v.repr().digits() > v.precision()
+        }
+        match p {
+            Pool::F => ol(&self.f[k]),
+            Pool::D => ol(&self.d[k]),
+            _ => false,
+        }
+    }
+
     /// Must be called with tracking ON (the values are dashu allocations; all inline initially).
     pub fn new() -> World {
         let (mut u, mut i, mut f, mut d, mut r, mut x) = untracked(|| {
